@@ -202,6 +202,28 @@ fn one(id: String, seed: u64, idx: u64, rng: &mut SplitMix64, sink: &mut Sink) {
                 cx.step(Op::Stats);
             }
             cx.step(Op::DropF(f));
+            // empty the file through one handle, fill it again through a fresh one: the entry must not keep anything
+            // of the old first cluster (its high word matters when the cluster number is >= 0x10000)
+            if rng.chance(1, 2) {
+                let f2 = cx.new_f();
+                if cx.step(Op::OpenFile { d: 0, path: b"big volume file.bin".to_vec(), new: f2 }).is_ok() {
+                    cx.step(Op::Truncate(f2));
+                    cx.step(Op::Extents(f2));
+                    cx.step(Op::DropF(f2));
+                    cx.step(Op::Stats);
+                    let f3 = cx.new_f();
+                    if cx.step(Op::OpenFile { d: 0, path: b"big volume file.bin".to_vec(), new: f3 }).is_ok() {
+                        let data = content(rng, cs as usize + 3);
+                        cx.step(Op::WriteAll { f: f3, data });
+                        cx.step(Op::Flush(f3));
+                        cx.step(Op::Seek { f: f3, whence: Whence::Start, n: 0 });
+                        cx.step(Op::ReadAll(f3));
+                        cx.step(Op::Extents(f3));
+                        cx.step(Op::DropF(f3));
+                        cx.step(Op::Stats);
+                    }
+                }
+            }
         }
         if far || root_high.is_some() {
             far_ops(&mut cx, rng, cs);
